@@ -176,7 +176,7 @@ def zernike_rules(run, db):
             if label == 'm = 0':
                 am = Rat(R.const(0))
             else:
-                am = dom.func_atom('abs', [mval]).r
+                am = dom.rat(dom.call_ext('builtins.abs', [mval], {}, None))          # the domain's own |m| (m for an order known to be positive)
             nj = dom.rat(dom.floordiv(nn - am, Rat(R.const(2)), None))
             rad = Rat(R.func('jacobi', [nj, Rat(R.const(0)), am, 2 * r_ * r_ - 1]))
             if label == 'm = 0':
@@ -380,7 +380,7 @@ def qloop_rules(run, db, rule='C07.qloop'):
             continue
         M = as_rat(dom, p.frame.env['m'], 'm')
         neg = _has(p, 'sign(m) == -1', True)
-        want_M = at('abs', m_)
+        want_M = dom.rat(dom.call_ext('builtins.abs', [Sym(m_)], {}, None))
         okM = M == want_M
         pref = (at('pow', r_, M) * Rat(R.trig('sin', M * t_))) if neg else (at('pow', r_, m_) * Rat(R.trig('cos', m_ * t_)))
         m1 = _has(p, 'm == 1', True)
@@ -402,6 +402,11 @@ def qloop_rules(run, db, rule='C07.qloop'):
                 base = (k, Qk)
         if base is not None:
             k, Qk = base
+            if not neg and _has(p, 'm == 0', False) and (_has(p, 'sign(m) == -1', False) or _has(p, 'm < 0', False) or _has(p, 'm > 0', True)):
+                # on this path m > 0: |m| and m are the same number, however the routine spells it
+                absm = 'abs(%s)' % m_.key()
+                got = got.subs({absm: m_})
+                Qk, pref = Qk.subs({absm: m_}), pref.subs({absm: m_})
             run.check(got == Qk * pref, rule, f.qual, 'n = %d (%s)' % (k, label), 'Q_%d^m = published starting value times u^|m| %s(|m| t)' % (k, 'sin' if neg else 'cos'),
                       'Q2d(n=%d; %s) returns %s, expected %s' % (k, label, got.key(), (Qk * pref).key()), f.loc())
             kinds.add('base%d%s%s' % (k, neg, m1))
@@ -440,7 +445,11 @@ def qloop_rules(run, db, rule='C07.qloop'):
         # what is returned after the sweep is the Q of the last order
         lastq = set(sw.fresh_equal(dom, Qn))
         posts = post_atoms(got)
-        okres = len(posts) == 1 and posts <= lastq and got == Rat(R.atom('post_' + sorted(posts)[0])) * pref
+        got_, pref_ = got, pref
+        if not neg and _has(p, 'm == 0', False) and (_has(p, 'sign(m) == -1', False) or _has(p, 'm < 0', False) or _has(p, 'm > 0', True)):
+            absm = 'abs(%s)' % m_.key()          # m > 0 on this path: |m| is m
+            got_, pref_ = got.subs({absm: m_}), pref.subs({absm: m_})
+        okres = len(posts) == 1 and posts <= lastq and got_ == Rat(R.atom('post_' + sorted(posts)[0])) * pref_
         run.check(okres, rule, f.qual, 'result (%s)' % label, 'the last Q computed by the sweep times u^|m| %s(|m| t) is returned' % ('sin' if neg else 'cos'),
                   'Q2d returns %s after the sweep (the names holding Q_n after an iteration are %s)' % (got.key(), sorted(lastq)), f.loc())
     need = {'m0'} | {'base%d%s%s' % (k, neg, m1) for k in (0, 1) for neg in (True, False) for m1 in (True, False)} | {'base%d%sTrue' % (k, neg) for k in (2, 3) for neg in (True, False)} \
